@@ -1,7 +1,7 @@
 #!/bin/bash
-# Confirm a fourth-wave seeded change in the sub-agent's own scratch worktree /tmp/w4-<ID>:
+# Confirm a seeded change (waves 4+) in the sub-agent's own scratch worktree /tmp/${PFX:-w4}-<ID>:
 # demo passes on the clean tree, the test suite passes with the change, demo fails with it.
-id=$1; W=/tmp/w4-$id
+id=$1; W=/tmp/${PFX:-w4}-$id
 cd $W || exit 9
 export CARGO_TARGET_DIR=$W/target CARGO_NET_OFFLINE=true
 git checkout -- src || exit 9
